@@ -80,7 +80,15 @@ class OpenAPISchemaResolver(SchemaTypeResolver):
             return self._resolve_one_of(schema, context, required, resolve_underlying)
 
         # Handle named schemas without generation_name (fallback for references)
-        if schema.name and schema.name in self.ref_resolver.schemas:
+        # An inline property schema carries its PROPERTY name: a string property called "Status" is not a reference to
+        # the component schema "Status". Only placeholders and type-less holders are looked up by name.
+        is_inline_property_value = (
+            schema_type in ("string", "integer", "number", "boolean", "array")
+            and not getattr(schema, "_from_unresolved_ref", False)
+            and not getattr(schema, "_is_circular_ref", False)
+            and not getattr(schema, "_is_self_referential_stub", False)
+        )
+        if schema.name and schema.name in self.ref_resolver.schemas and not is_inline_property_value:
             target_schema = self.ref_resolver.schemas[schema.name]
             # Avoid infinite recursion if it's the same object
             if target_schema is not schema:
